@@ -101,6 +101,24 @@ def run(ck):
     cases = gen_cases(ck)
     differential(ck, exe, cases, make_oracle(ck), src=True)
     object_reuse(ck, exe)
+    # the file entry point reading from a PIPE (not seekable, short reads): every length residue, all three algorithms
+    pl, pw = [], {}
+    rr = ck.rng
+    for j, n in enumerate([0, 1, 37, 63, 64, 65, 100, 255, 256, 257, 64 * HBUF - 1, 64 * HBUF, 64 * HBUF + 1, 3 * 64 * HBUF + 57, 1000]):
+        m = bytes(rr.randrange(256) for _ in range(n))
+        for alg in (0, 1, 2):
+            cid = "p%d_%d" % (j, alg)
+            pl.append("%s hpipe %d %s" % (cid, alg, wv.hexs(m)))
+            pw[cid] = PY[alg](m).hexdigest()
+    po = wv.run_lines([exe], pl, env=ck.env())
+    for l in pl:
+        cid = l.split()[0]
+        ck.cov["evaluations"] += 1
+        if po.get(cid) != pw[cid]:
+            ck.violation("digest of a message read from a pipe (file entry point, input not seekable) differs from the standard value",
+                         {"class": None, "case": l[:3000], "implementation": po.get(cid), "spec": pw[cid], "replay": "echo 'x <case>' | harness/drv.cpp built against /repo"})
+            break
+    ck.cov.setdefault("case_classes", {})["file-entry-point-from-a-pipe"] = len(pl)
     r = ck.rng
     parallel_purity(ck, exe, ["hstr %d %s" % (i // 4 % 3, bytes(r.randrange(256) for _ in range(r.choice([3, 55, 56, 64, 100, 130]))).hex()) for i in range(24)], "digests (same algorithm, different messages)", iters=1500)
     # the 2^32-bit counter: one message of 2^29+3 zero bytes per algorithm through the file entry point
